@@ -1,6 +1,9 @@
 #!/bin/bash
-# source this: builds background sweeps from a snapshot of the harness so that /verif/mc can be edited meanwhile
+# source this: background sweeps build from a snapshot of the harness and work on a scratch worktree of /repo,
+# so that neither /verif/mc nor /repo is disturbed while they run
 mkdir -p /verif/.sweep/out
 rsync -a --delete /verif/mc/ /verif/.sweep/mc/ --exclude target
 rsync -a --delete /verif/vendor/ /verif/.sweep/vendor/
-export VERIF_MC_DIR=/verif/.sweep/mc VERIF_TARGET=/verif/.sweep/target VERIF_OUT=/verif/.sweep/out
+if [ ! -d /verif/.sweep/repo ]; then git -C /repo worktree add -q --detach /verif/.sweep/repo HEAD; fi
+git -C /verif/.sweep/repo checkout -q --detach "$(git -C /repo rev-parse HEAD)" && git -C /verif/.sweep/repo checkout -q -- . && git -C /verif/.sweep/repo clean -fdq src
+export VERIF_MC_DIR=/verif/.sweep/mc VERIF_TARGET=/verif/.sweep/target VERIF_OUT=/verif/.sweep/out VERIF_REPO=/verif/.sweep/repo
